@@ -15,6 +15,7 @@ import (
 	"reflect"
 	"sort"
 	"strings"
+	"sync"
 
 	"github.com/kercylan98/minotaur/engine/ecs"
 	"github.com/kercylan98/minotaur/engine/ecs/storage/column"
@@ -65,8 +66,28 @@ func newComp(t int) any {
 	case 11:
 		return new(C11)
 	}
+	if t >= nTypes && t < maxTypes {
+		// more component types than named ones: distinct struct types with one int64 field, told apart by their tag
+		manyMu.Lock()
+		defer manyMu.Unlock()
+		ty, ok := manyTypes[t]
+		if !ok {
+			ty = reflect.StructOf([]reflect.StructField{{Name: "V", Type: reflect.TypeOf(int64(0)), Tag: reflect.StructTag(fmt.Sprintf(`c:"%d"`, t))}})
+			manyTypes[t] = ty
+		}
+		return reflect.New(ty).Interface()
+	}
 	panic("bad type tag")
 }
+
+// maxTypes: type tags nTypes..maxTypes-1 are built by reflection (scripts with more than 64 registered component types:
+// ids beyond the width of a machine word)
+const maxTypes = 72
+
+var (
+	manyMu    sync.Mutex
+	manyTypes = map[int]reflect.Type{}
+)
 
 // payload access through reflection: p is *Ck
 func payload(p any) (v reflect.Value, ok bool) {
@@ -169,6 +190,7 @@ type runner struct {
 	// instead — the world must not be affected) and what the caller handed to Annihilates
 	kept    []keptSlice
 	nSpawns int
+	held    []heldResult
 }
 
 type keptSlice struct {
@@ -177,7 +199,45 @@ type keptSlice struct {
 	copy []ecs.Entity
 }
 
+// heldResult: a query Result kept by the caller across later operations: it must go on listing exactly the entities it
+// listed when it was obtained (consuming it while or after entities are annihilated or spawned is ordinary use)
+type heldResult struct {
+	what   string
+	result *ecs.Result
+	listed []H
+}
+
+func (r *runner) checkHeld() {
+	for i := range r.held {
+		hr := &r.held[i]
+		if hr.result == nil {
+			continue
+		}
+		var now []H
+		ok := true
+		func() {
+			defer func() {
+				if recover() != nil {
+					ok = false
+				}
+			}()
+			for _, e := range hr.result.Entities() {
+				now = append(now, fromEntity(e))
+			}
+		}()
+		same := ok && len(now) == len(hr.listed)
+		for j := 0; same && j < len(now); j++ {
+			same = now[j] == hr.listed[j]
+		}
+		if !same {
+			r.flag("Query", "held-result-changed", fmt.Sprintf("%s listed %v when it was obtained and lists %v now (a Result is a snapshot)", hr.what, hr.listed, now), nil)
+			hr.result = nil
+		}
+	}
+}
+
 func (r *runner) checkKept() {
+	r.checkHeld()
 	for i := range r.kept {
 		k := &r.kept[i]
 		for j := range k.live {
@@ -358,7 +418,16 @@ func describe(o COp) string {
 	return string(b)
 }
 
-func (r *runner) full() bool { return r.stopped || len(r.c.Ops) >= maxOps }
+// registrations do not count against the length limit (scripts with more than 64 component types)
+func (r *runner) full() bool {
+	n := 0
+	for _, o := range r.c.Ops {
+		if o.K != "reg" {
+			n++
+		}
+	}
+	return r.stopped || n >= maxOps
+}
 
 func (r *runner) compKey(cs []int) string {
 	m := map[int]bool{}
@@ -520,6 +589,12 @@ func (r *runner) doQuery(q *Q, viaF bool) (*ecs.Result, []H) {
 	}
 	if res.K != "handles" {
 		return result, listed
+	}
+	if result != nil {
+		if len(r.held) >= 4 {
+			r.held = r.held[1:]
+		}
+		r.held = append(r.held, heldResult{fmt.Sprintf("the Result of %s obtained at concrete op #%d", qShape(q), len(r.c.Ops)-1), result, append([]H{}, listed...)})
 	}
 	sig := map[string]string{"filter": qShape(q)}
 	seen := map[H]bool{}
@@ -928,21 +1003,27 @@ func genScript(rng *vh.RNG, next *int64) []SOp {
 	var s []SOp
 	nreg := rng.Range(2, 4)
 	wide := rng.Chance(1, 25)
+	huge := !wide && rng.Chance(1, 25) // more than 64 component types
+	ntags := nTypes
 	if wide {
 		nreg = nTypes
 	}
+	if huge {
+		ntags = maxTypes
+		nreg = rng.Range(66, maxTypes)
+	}
 	// registration order is a random permutation of the type tags, so ids and tags differ
-	perm := make([]int, nTypes)
+	perm := make([]int, ntags)
 	for i := range perm {
 		perm[i] = i
 	}
-	for i := nTypes - 1; i > 0; i-- {
+	for i := ntags - 1; i > 0; i-- {
 		j := rng.Intn(i + 1)
 		perm[i], perm[j] = perm[j], perm[i]
 	}
 	var ids []int
 	late := 0
-	if !wide && rng.Chance(1, 4) {
+	if !wide && !huge && rng.Chance(1, 4) {
 		late = 1 // one component is registered in the middle of the history
 	}
 	for i := 0; i < nreg-late; i++ {
@@ -960,6 +1041,10 @@ func genScript(rng *vh.RNG, next *int64) []SOp {
 			continue
 		}
 		pool := ids
+		if huge {
+			// component sets that differ only in ids on either side of 64
+			pool = []int{1, 2, 63, 64, 65, 66, nreg}
+		}
 		if wide && rng.Chance(2, 3) {
 			// two-digit ids next to one-digit ids: {1,12} vs {11,2}
 			pool = []int{1, 2, 11, 12}
